@@ -22,16 +22,19 @@ def rule_table():
 
 
 def keyword_dicts():
-    """dictionaries in registration order, as [(name, {WORD: typename})]."""
+    """dictionaries in registration order, as [(name, {WORD: typename})]: the add_keywords() calls that
+    default_initialization() makes (observed through the public method, not through the lexer's private state)."""
     from sqlparse import keywords as K
     from sqlparse.lexer import Lexer
-    lx = Lexer()
-    lx.default_initialization()
+    seen = []
+
+    class Spy(Lexer):
+        def add_keywords(self, keywords):
+            seen.append(keywords)
+            return super().add_keywords(keywords)
+    Spy().default_initialization()
     names = {id(getattr(K, n)): n for n in dir(K) if n.startswith('KEYWORDS')}
-    out = []
-    for d in lx._keywords:
-        out.append((names.get(id(d), '?'), {k: str(v) for k, v in d.items()}))
-    return out
+    return [(names.get(id(d), '?'), {k: str(v) for k, v in d.items()}) for d in seen]
 
 
 def all_keyword_words():
